@@ -75,6 +75,7 @@ type luaHarnessSummary struct {
 	Commands    int                    `json:"redis_commands_encoded"`
 	Labels      map[string]int         `json:"assert_labels"`
 	Validated   int                    `json:"traces_validated_against_impl"`
+	EncTraces   int                    `json:"encoder_vs_miniredis_traces_agreeing"`
 	SolverS     float64                `json:"solver_seconds"`
 	Extra       map[string]interface{} `json:"extra,omitempty"`
 }
@@ -488,6 +489,7 @@ func runLuaChecks(prop, tier string, hs []*HarnessSpec, outDir string, jobs int)
 			if tr.ok {
 				res.Validated++
 				sum.Validated++
+				sum.EncTraces++
 			} else {
 				inc("%s: the encoder disagrees with the implementation (miniredis through the real Go API) on %s: %s — encoder error, not a finding", tr.h.Name, tr.label, tr.detail)
 			}
@@ -561,6 +563,13 @@ func runLuaChecks(prop, tier string, hs []*HarnessSpec, outDir string, jobs int)
 		"the encoder's concrete evaluation is compared on fixed histories with miniredis (gopher-lua) running the real script through the real PeriodLimit/TokenLimiter API on every run")
 	sort.Strings(res.Bounds)
 	return res
+}
+
+func luaExplanation(lr *luaResult) string {
+	if len(lr.Summaries) == 0 {
+		return ""
+	}
+	return "Lua checks: states += script invocations symbolically executed (each covers every input within the bounds), transitions += symbolic branches and Redis commands encoded; one SMT query per (encoding x assertion), obligations/discharged count the assertions, witnesses are expected-sat vacuity guards; traces_validated_against_impl += concrete histories (the encoder's concrete evaluation of fixed histories, the same histories against the statement's reference semantics, witness models, counterexamples) run through the real PeriodLimit.Take/TokenLimiter.AllowN against miniredis"
 }
 
 type luaVerdict struct {
